@@ -205,8 +205,8 @@ def r7b_line_views_agree(ctx, sym):
                   "IndexError escapes verify()")
 
 
-def r8_text_kept(ctx, sym):
-    ctx.rule('R8', "Submission.__init__ and Submission.replace_main executed abstractly for Python files with texts that "
+def r8_text_kept(ctx, sym, rule='R8'):
+    ctx.rule(rule, "Submission.__init__ and Submission.replace_main executed abstractly for Python files with texts that "
                    "start with a byte order mark, end in blanks, use CR LF, tabs, form feeds or a NUL: the main code "
                    "verify() will parse is the text submitted, character for character (CPython rejects a BOM inside a "
                    "str; a submission stripped of it would be accepted)")
@@ -217,7 +217,7 @@ def r8_text_kept(ctx, sym):
     ctx.analysed_function(smod, init)
     ctx.analysed_function(smod, rep)
     texts = ['\ufeffx = 1\n', 'x = 1  \n\n', ' \tx = (\r\n', 'a\x0cb\n', 'x\x00', '', '\n\n', '\ufeff',
-             'x = "\u00a0"\u3000\n']
+             'x = "\u00a0"\u3000\n', 'header = "name\tscore"\nprint(header.split("\t"))\n']
     for text in texts:
         for how in ('main_code=', 'files=', 'replace_main'):
             me = symexec.self_obj(smod, 'Submission')
@@ -235,7 +235,7 @@ def r8_text_kept(ctx, sym):
             stored = files.get(me.attrs.get('main_file')) if isinstance(files, dict) else None
             main = me.attrs.get('main_code', stored)
             ok = raised is None and stored == text and (main == text or how == 'files=')
-            ctx.check(ok, 'R8', 'Submission[%s%r]:text-kept' % (how, text), smod, init if how != 'replace_main' else rep,
+            ctx.check(ok, rule, 'Submission[%s%r]:text-kept' % (how, text), smod, init if how != 'replace_main' else rep,
                       "a submission built with %s %r holds %r as its main file%s" % (
                           how, text, stored, '' if raised is None else ' (raises %s)' % raised.kind),
                       "contextualize_report('\\ufeffx = 1'); verify(): CPython rejects the text (invalid non-printable "
